@@ -222,8 +222,22 @@ func c18Units(ctx *core.Ctx) []core.Unit {
 		for i, p := range polys {
 			coefs[i] = ref.Interpolate(p.V)
 		}
-		for _, z := range zs {
+		for zi, z := range zs {
 			in := "z=" + z.Text(16)
+			if zi%2 == 1 {
+				// earlier, unrelated use of the helpers the evaluation is built on: batch inversions of 256 and
+				// 300 values with zeros at every other position / at the ends (what they leave behind must not matter)
+				for _, L := range []int{256, 300} {
+					pol := make([]fr.Element, L)
+					for i := range pol {
+						if (i+zi/2)%2 == 0 && i != 0 && i != L-1 {
+							pol[i] = frFromBig(bi(int64(i + 2)))
+						}
+					}
+					fr.BatchInvert(pol)
+				}
+				in += " after batch inversions of vectors containing zeros"
+			}
 			var b []fr.Element
 			if !guard(r, "c18.panic", "ipa.PrecomputedWeights.ComputeBarycentricCoefficients", in, func() { b = pw.ComputeBarycentricCoefficients(frFromBig(z)) }) {
 				continue
